@@ -110,8 +110,8 @@ class Abort(Exception):
     pass
 
 
-def interp(hp, prog, events, last=None, scopes=()):
-    """run the program tree against a real HyperParameters object"""
+def interp(hp, prog, events, last=None, scopes=(), skip_lazy=False):
+    """run the program tree against a real HyperParameters object (`skip_lazy`: leave out every `if`-guarded body)"""
     for st in prog:
         if st[0] == "decl":
             try:
@@ -140,7 +140,7 @@ def interp(hp, prog, events, last=None, scopes=()):
                 events.append(("err", "unknown", qn))
         elif st[0] == "ns":
             with hp.name_scope(st[1]):
-                interp(hp, st[2], events, None, scopes)
+                interp(hp, st[2], events, None, scopes, skip_lazy)
         else:
             _, parent, vals, lazy, body = st
             try:
@@ -150,8 +150,8 @@ def interp(hp, prog, events, last=None, scopes=()):
                 events.append(("err", "notDefined", hp._get_name(parent)))
                 raise Abort()
             try:
-                if (not lazy) or (last in vals):
-                    interp(hp, body, events, None, tuple(scopes) + ((hp._get_name(parent), list(vals)),))
+                if (not lazy) or (last in vals and not skip_lazy):
+                    interp(hp, body, events, None, tuple(scopes) + ((hp._get_name(parent), list(vals)),), skip_lazy)
             finally:
                 cm.__exit__(None, None, None)
     return last
@@ -325,7 +325,21 @@ def run_discover(R, res, lines, expect, tags):
     allow = R.random() < 0.8
     tune = R.random() < 0.8
     pre = kt.HyperParameters()
-    if (not allow or not tune) or R.random() < 0.3:
+    focus_lazy = R.random() < 0.2 and any(lz for _, _, lz in all_decls(prog))
+    if focus_lazy:
+        # a given space that holds everything the build function declares outside `if` guards, new entries neither allowed
+        # nor tuned: what is declared only under an `if` on the parent's value must still be found (and rejected) before
+        # the first trial - by the builds of the activation loop, not by the first one
+        allow, tune = False, R.random() < 0.3
+        try:
+            interp(pre, prog, [], skip_lazy=True)
+            tags["focus-lazy-given-space"] += 1
+        except (Abort, Violation):
+            pre = kt.HyperParameters()
+            focus_lazy = False
+    if focus_lazy:
+        pass
+    elif (not allow or not tune) or R.random() < 0.3:
         for st in prog:
             if st[0] == "decl" and R.random() < 0.7:
                 declare(pre, st[1])
@@ -403,6 +417,12 @@ def run_discover(R, res, lines, expect, tags):
         top_new = [st[1]["name"] for st in prog if st[0] == "decl" and st[1]["name"] not in {h["name"] for h in init_space}]
         if top_new and not err:
             raise Violation("C13", f"allow_new_entries=False but new entries {top_new} were accepted", {"tag": "flags"})
+        # entries declared only under a Python `if` on the parent's value: the discovery loop activates every scope before
+        # the first trial, so they are found - and must be rejected - at construction as well
+        lazy_new = [qn for qn, conds, lazy_under in decls if qn in new and qn not in top_new]
+        if lazy_new and not err:
+            tags["lazy-new-not-rejected-candidate"] += 1
+            lines[-1]["expect_reject_if_model_rejects"] = lazy_new
     tags[f"discover-allow{int(allow)}-tune{int(tune)}"] += 1
     return any(st[0] == "cond" for st in prog)
 
@@ -413,6 +433,13 @@ def compare_prefix(res, lines, expect, got, scen):
             continue
         res.evaluations += 1
         ok = g.startswith(e[1]) if isinstance(e, tuple) else (e == g)
+        if isinstance(e, tuple) and lines[i].get("op") == "discover" and "ERR:" in g:
+            ok = False        # the implementation accepted the build function, the model's discovery loop rejects an entry
+            lazy_new = lines[i].get("expect_reject_if_model_rejects")
+            if lazy_new:
+                res.violations.append({"pid": "C13", "what": f"allow_new_entries=False: the build function declares {lazy_new} (not in the given space) under an `if` "
+                                       f"on the parent's value; the discovery loop reaches such declarations before the first trial and must reject them "
+                                       f"({g[g.index('ERR:'):][:80]}), but the tuner was constructed without an error", "sig": {"tag": "flags-lazy"}, "replay": scen})
         if not ok:
             res.mismatches.append({"suite": res.suite, "scenario": scen, "op_index": i, "op": {k: v for k, v in lines[i].items() if k != "prog"},
                                    "impl": e[1] if isinstance(e, tuple) else e, "model": g, "ops": [lines[i]]})
